@@ -22,7 +22,7 @@ from .symalg import Frac, Poly, PW, Unsupported
 from .deriv_rules import Forward, Abstain
 
 EXTRACT_FNS = ("corgi::array::Array::values", "corgi::array::arithmetic::<impl corgi::array::Array>::sum_all")
-DETACHED_PREFIX = ("sum_all[", "sigma[", "elem[")
+DETACHED_PREFIX = ("sum_all[", "sigma[", "elem[", "det[")
 OPERAND_ATOM = re.compile(r"(?<![A-Za-z0-9_:])a\d+(?![A-Za-z0-9_])|f:")
 
 
@@ -94,6 +94,21 @@ def r45_no_detached_dependence(facts):
     fl = facts.float or "f64"
     comps = composites(facts)
     c.floor("composite differentiable functions and closures (array in, array out, no derivative of their own)", len(comps), 8)
+    # crate-local array-returning functions that are themselves composites taking numbers out of their operands (a `detach()`-like helper):
+    # a call of one is an extraction site of the caller
+    extracting = set()
+    for b in comps:
+        if b["kind"] not in ("Fn", "AssocFn"):
+            continue
+        for nb in facts.nested(b):
+            root = facts.root(nb)
+            parents = {}
+            for n in walk(root):
+                for ch in F.kids(n):
+                    if isinstance(ch, dict):
+                        parents[id(ch)] = n
+            if any(_is_extraction(n, fl) and not _only_shape_use(n, parents) for n in walk(root)):
+                extracting.add(b["def"])
     for b in comps:
         where = "%s:%d" % (F.rel(b["file"]), b["sp"][0])
         inst = "composite:%s" % b["def"]
@@ -107,6 +122,8 @@ def r45_no_detached_dependence(facts):
                         parents[id(ch)] = n
             for n in walk(root):
                 if _is_extraction(n, fl) and not _only_shape_use(n, parents):
+                    sites.append((nb, n))
+                elif n.get("k") == "Call" and resolved(n) in extracting and resolved(n) != b["def"]:
                     sites.append((nb, n))
         if not sites:
             c.ok(inst, where, "takes no plain number out of an array", nontrivial=False)
@@ -133,6 +150,8 @@ def r45_no_detached_dependence(facts):
                 continue
             for piece in _pieces(v[1]):
                 atoms = piece.atoms()
+                if len(atoms) == 1 and next(iter(atoms)).startswith("det[") and piece.equals(fw.alg.atom(next(iter(atoms)))):
+                    continue        # the whole result is a new leaf assembled from the operand's numbers: a detaching function, which records no graph at all
                 det = sorted(a for a in atoms if a.startswith(DETACHED_PREFIX) and OPERAND_ATOM.search(a[a.index("["):]))
                 for m in det:
                     buried = [a for a in atoms if a != m and m in a and not a.startswith(("exp[", "ln["))]
@@ -318,3 +337,105 @@ def r51_no_flat_broadcast_in_derivatives(facts):
                           % (a[0], b_[0], " (one of them repeated with `cycle()`)" if a[1] or b_[1] else ""))
     c.floor("derivative closures / nested helpers of operations with several array operands", n_bodies, 3)
     return c
+
+
+def r54_no_flat_pairing_in_forward(facts):
+    """NO-FLAT-PAIRING: a function that builds an array never combines two DIFFERENT arrays by zipping their raw value buffers unless the path establishes that their dimensions are equal (a shortcut whose guard compares ranks, lengths or element counts pairs [1,3] with [3,1] position by position and never broadcasts)"""
+    IT_ = "core::iter::traits::iterator::Iterator::"
+    c = Ctx("R54", facts, "array-building functions pair the raw buffers of two arrays only under equal dimensions")
+    n_fn = 0
+    for fn in facts.fns():
+        if ARRAY not in (fn.get("output") or "") or fn.get("impl_trait_def") in ("core::clone::Clone", "core::convert::From"):
+            continue
+        if sum(1 for t in (fn.get("inputs") or []) if ARRAY in (t or "")) < 2:
+            continue
+        n_fn += 1
+        for nb in facts.nested(fn):
+            if is_backward_closure(nb) or any(is_backward_closure(x) for x in _ancestors_of(facts, nb)):
+                continue
+            root = facts.root(nb)
+            if root is None:
+                continue
+            lets = {}
+            for n in walk(root):
+                if n.get("k") == "Block":
+                    for st in n["stmts"]:
+                        if st["s"] == "let" and st["pat"].get("k") == "Binding" and st.get("init") is not None:
+                            lets[st["pat"]["v"]] = st["init"]
+
+            def source(e, depth=0):
+                e = F.peel(e)
+                while isinstance(e, dict) and depth < 12:
+                    depth += 1
+                    if e.get("k") == "Call" and e["args"]:
+                        tail = (callee(e) or "").rsplit("::", 1)[-1]
+                        if tail in ("iter", "into_iter", "cycle", "copied", "cloned", "deref", "as_slice", "as_ref", "borrow", "by_ref", "peekable"):
+                            e = F.peel(e["args"][0])
+                            continue
+                        if (resolved(e) or "") == "corgi::array::Array::values":
+                            return show(F.peel(e["args"][0]))[:40]
+                        return None
+                    if e.get("k") == "Field" and e.get("name") == "values" and e.get("adt") == ARRAY:
+                        return show(F.peel(e["e"]))[:40]
+                    if e.get("k") in ("VarRef", "UpvarRef") and e["v"] in lets:
+                        e = F.peel(lets[e["v"]])
+                        continue
+                    return None
+                return None
+            for n, ctx in F.walk_ctx(root):
+                if not (n.get("k") == "Call" and callee(n) == IT_ + "zip" and len(n["args"]) == 2):
+                    continue
+                a, b_ = source(n["args"][0]), source(n["args"][1])
+                if a is None or b_ is None or a == b_:
+                    continue
+                inst = "zip:%s" % nb["def"]
+                dims_eq, other = False, []
+                for cond, truth in F.path_facts(ctx):
+                    for cs in _conjuncts(strip(cond), truth):
+                        if (cs.get("k") == "Binary" and cs.get("op") == "Eq") or (cs.get("k") == "Call" and callee(cs) == "core::cmp::PartialEq::eq"):
+                            sides = [cs["l"], cs["r"]] if cs.get("k") == "Binary" else cs["args"]
+                            whole = []
+                            for sd in sides:
+                                pe = F.peel(sd)
+                                if isinstance(pe, dict) and pe.get("k") == "Field" and pe.get("name") == "dimensions" and pe.get("adt") == ARRAY:
+                                    whole.append(show(F.peel(pe["e"]))[:40])
+                                elif isinstance(pe, dict) and pe.get("k") == "Call" and resolved(pe) == "corgi::array::Array::dimensions" and pe["args"]:
+                                    whole.append(show(F.peel(pe["args"][0]))[:40])
+                            if sorted(whole) == sorted([a, b_]):
+                                dims_eq = True
+                            else:
+                                other.append(show(cs)[:50])
+                        else:
+                            other.append(show(cs)[:50])
+                if dims_eq:
+                    c.ok(inst, F.loc(nb, n), "raw buffers of `%s` and `%s` are zipped on a path where their dimensions are equal" % (a, b_))
+                elif any((y.get("callee") or {}).get("resolved_local") for cond, _ in F.path_facts(ctx) for y in walk(cond) if y.get("k") == "Call"):
+                    c.unk(inst, F.loc(nb, n), "raw buffers of `%s` and `%s` are zipped under a condition computed by a helper function (not read)" % (a, b_))
+                else:
+                    c.bad(inst, F.loc(nb, n), "`%s` and `%s` are combined by zipping their raw value buffers%s: flat positions correspond only for equal dimensions, so operands that "
+                          "must be broadcast against each other ([1,3] with [3,1]) are paired position by position, and incompatible shapes of equal size are not refused"
+                          % (a, b_, (" under the guard `%s`, which does not establish equal dimensions" % other[0]) if other else " without any guard"))
+    c.count("array-building functions of two or more arrays", n_fn)
+    return c
+
+
+def _conjuncts(cs, truth):
+    """the atomic conditions that hold when `cs` has value `truth` (conjunctions split when true, disjunctions when false)"""
+    cs = strip(cs)
+    if not isinstance(cs, dict):
+        return []
+    if cs.get("k") == "LogicalOp" and ((cs["op"] == "And" and truth) or (cs["op"] == "Or" and not truth)):
+        return _conjuncts(cs["l"], truth) + _conjuncts(cs["r"], truth)
+    if not truth:
+        return []
+    return [cs]
+
+
+def _ancestors_of(facts, nb):
+    out = []
+    cur = nb
+    while cur is not None and cur.get("kind") == "Closure" and cur.get("parent"):
+        cur = facts.body(cur["parent"])
+        if cur is not None:
+            out.append(cur)
+    return out
